@@ -78,10 +78,10 @@ class FuncInfo:
             object.__setattr__(self, "_single", {k: v for k, v in defs.items() if counts.get(k) == 1 and k not in ps and k not in loopvars})
         return self._single  # type: ignore
 
-    def resolve(self, e: ast.AST, depth: int = 4) -> ast.AST:
+    def resolve(self, e: ast.AST, depth: int = 4, keep=()) -> ast.AST:
         """A copy of e with single-assignment locals replaced by their definitions (undoes 'extract variable')."""
         import copy
-        single = self.single_defs()
+        single = {k: v for k, v in self.single_defs().items() if k not in keep}
 
         class T(ast.NodeTransformer):
             def __init__(self, d):
